@@ -263,6 +263,12 @@ def features(prefix):
             f.add("reevictclaim")         # the eviction of a pod with a resource claim is REDONE (undo of its un-eviction) inside Rollback / Discard / Commit
         if "state" in e:
             state = e["state"]
+            held = {}
+            for v in state.get("claims", {}).get("pods", {}).values():
+                for d in v["odev"]:
+                    held.setdefault(d, set()).add(v["obj"])
+            if any(len(o) > 1 for o in held.values()):
+                f.add("twoclaimsonedevice")  # two ResourceClaim objects are allocated the same device (un-eviction onto a device that was given away)
             for nd in state["nodes"].values():
                 if any(v["st"] == "Pipelined" for v in nd["pods"].values()) and any(x != 0 for x in nd["um"].values()):
                     f.add("pipeonshared")  # a nominated pod on a node that has shared GPUs (finding F23)
